@@ -442,7 +442,7 @@ func c14Load(first *ipldbindcode.DataFrame, st *c14Store) (out []byte, err error
 func c14Eval(R *vkit.Report, a, b *c14Chain, f c14Fault) {
 	first, st := c14Apply(a, b, f)
 	got, err, pan, site := c14Load(first, st)
-	rp := map[string]interface{}{"shape": a.Shape, "fault": f}
+	rp := map[string]interface{}{"variant": "tooling", "shape": a.Shape, "fault": f}
 	protected := a.Shape.Prot == ""
 	nonTrivial := f.Kind != "none" || a.N > 1
 	R.Case(nonTrivial, "")
@@ -619,6 +619,10 @@ func TestVerif_C14(t *testing.T) {
 	R.Bounds["shapes"] = len(shapes)
 
 	if rp := vkit.ReplayRequest(); rp != nil {
+		if v, _ := rp["variant"].(string); v != "tooling" {
+			R.Note("replay file belongs to variant %q: nothing to do in this one", v)
+			return
+		}
 		var s c14Shape
 		var f c14Fault
 		c14Remarshal(rp["shape"], &s)
